@@ -17,6 +17,11 @@ THEOREMS = [
     "OQuPyVerif.Props.C13.label_final_grad",
     "OQuPyVerif.Props.C13.num_step_tempo", "OQuPyVerif.Props.C13.num_step_mft",
     "OQuPyVerif.Props.C13.pt_length",
+    "OQuPyVerif.Props.C13.grid_general", "OQuPyVerif.Props.C13.grid_general_floor",
+    "OQuPyVerif.Props.C13.steps_abstract_eq", "OQuPyVerif.Props.C13.grid_general_binary64",
+    "OQuPyVerif.Props.C13.labels_monotone", "OQuPyVerif.Props.C13.tempo_history_grid",
+    "OQuPyVerif.FloatGrid.rnd_err", "OQuPyVerif.FloatGrid.rnd_mono",
+    "OQuPyVerif.FloatGrid.steps_mono",
     "OQuPyVerif.Props.C13.grid_lattice_quick",
     "OQuPyVerif.Props.C13.dynamics_sorted_aligned",
     "OQuPyVerif.Props.C13.dynamics_sorted_aligned_all",
